@@ -118,6 +118,17 @@ CHECKS["C15"] = cfg(
                  "insert of a JWK whose d is malformed is counted, not judged"],
 )
 
+CHECKS["C03"] = cfg(
+    "C03",
+    technique="runtime monitoring: decision-table oracle over harness-constructed presentation tokens (own keys, own JWT assembler); accept <=> all conditions",
+    level_text="Presentation tokens are built by the harness against a holder document with a general-purpose, an embedded and a foreign-DID method; each of the 10 conditions (signature, kid/method-id resolution as full id/'#fragment'/bare fragment, scope, nonce, iss == document id, expiry and issuance bounds at +-1 s with nbf-else-iat, vp.id/vp.holder consistency, numeric dates in range) is true or false by construction. validate() must accept exactly when all hold, and on acceptance return the presentation, aud, dates, custom claims and header that were signed.",
+    min={"quick": {"accepted": 600, "rejected": 1500, "rejected:signature": 150, "rejected:iss-equals-holder-document": 150, "rejected:scope": 80,
+                   "rejected:vp.id-consistent": 100, "rejected:numeric-date-in-range": 100, "distinct:condition_vectors": 60},
+         "thorough": {"accepted": 15000, "rejected": 40000, "distinct:condition_vectors": 150}},
+    assumptions=["validation bounds are always explicit (no wall clock)",
+                 "a vp.id present while jti is absent is not judged (latitude)"],
+)
+
 # Default entries for properties whose monitors are being built (not claimed in MANIFEST.json until enabled).
 for _pid in ["C%02d" % i for i in range(1, 21)]:
     if _pid not in CHECKS:
